@@ -91,8 +91,14 @@ class NumpyModel:
     # ------------------------------------------------------------------ attributes
     def ext_attr(self, base, attr, node):
         path = base.path + "." + attr
-        if path in ("numpy.pi",):
+        if path in ("numpy.pi", "math.pi"):
             return alg.PI
+        if path in ("numpy.e", "math.e"):
+            return self.np_exp(ONE)
+        if path == "math.tau":
+            return 2 * alg.PI
+        if path == "math.nan":
+            return NAN
         if path in ("numpy.inf", "math.inf"):
             return INF
         if path in ("numpy.nan",):
@@ -354,7 +360,7 @@ class NumpyModel:
         if name == "mean":
             return self.np_mean(a, *args, **kwargs)
         if name == "cumsum":
-            return self.np_cumsum(a)
+            return self.np_cumsum(a, *args, **kwargs)
         if name == "dot":
             return self.matmul(a, args[0], node)
         if name == "fill":
@@ -404,6 +410,14 @@ class NumpyModel:
                 if op:
                     return I.opaque(f"{last} of an opaque value ({op[0].reason})", node)
                 return f(*args, **kwargs)
+        if root == "math" and last in _MATH_AS_NUMPY and not kwargs:
+            # the math module on scalars: same real functions as their NumPy namesakes
+            f = getattr(self, "np_" + _MATH_AS_NUMPY[last], None)
+            if f is not None and not any(isinstance(a, np.ndarray) and a.ndim > 0 for a in args):
+                op = [a for a in args if isinstance(a, Opaque)]
+                if op:
+                    return I.opaque(f"{last} of an opaque value ({op[0].reason})", node)
+                return f(*args)
         if root == "numpy" and last in _PURE_NUMPY:
             r_ = self._concrete_numpy(last, args, kwargs)
             if r_ is not _NOPE:
@@ -1169,7 +1183,18 @@ class NumpyModel:
             raise Unsupported("mean with axis")
         return self.np_sum(a) / a.size
 
-    def np_cumsum(self, a, axis=None):
+    def np_cumsum(self, a, axis=None, **kw):
+        a = self.np_asarray(a)
+        if axis is not None and a.ndim > 1:
+            axis = int(cell(axis).cval()) if not isinstance(axis, int) else axis
+            out = np.empty(a.shape, dtype=object)
+            moved_in, moved_out = np.moveaxis(a, axis, -1), np.moveaxis(out, axis, -1)
+            for ix in np.ndindex(*moved_in.shape[:-1]):
+                r = ZERO
+                for j in range(moved_in.shape[-1]):
+                    r = r + moved_in[ix + (j,)]
+                    moved_out[ix + (j,)] = r
+            return out
         out = np.empty(a.size, dtype=object)
         r = ZERO
         for i, x in enumerate(a.flat):
@@ -1325,11 +1350,89 @@ class NumpyModel:
         if all(c.is_const() for c in cs):
             order = sorted(range(len(cs)), key=lambda i: cs[i].cval())
             return mkarr(order).astype(object) if False else np.array(order, dtype=object)
+        if self.I.perm_chooser is None and self.I.model is not None:
+            r_ = self._model_argsort(a, kw)
+            if r_ is not None:
+                return r_
         if self.I.perm_chooser is None:
             return SymIdx("argsort", (a,))
         perm = self.I.perm_chooser(cs)
         self.I.facts.append(("perm", cs, tuple(perm)))
         return np.array(list(perm), dtype=object)
+
+    def _model_order(self, row):
+        """stable ascending order of a row of symbolic cells at the model point; the order facts it rests on are logged as decisions"""
+        vals = [self.I.model_val(c) for c in row]
+        if any(v is None for v in vals):
+            return None
+        order = sorted(range(len(row)), key=lambda i: vals[i])
+        for p_, q_ in zip(order, order[1:]):
+            if lift(row[p_]) != lift(row[q_]):
+                self.I.model_decisions.append(("LtE", lift(row[p_]), lift(row[q_]), True))
+        return order
+
+    def _model_argsort(self, a, kw, values=False):
+        axis = kw.get("axis", -1)
+        axis = int(cell(axis).cval()) if not isinstance(axis, int) else axis
+        if a.ndim == 1:
+            o = self._model_order(list(a))
+            if o is None:
+                return None
+            return mkarr([a[i] for i in o]) if values else np.array(o, dtype=object)
+        if a.ndim == 2 and axis in (-1, 1):
+            rows = [self._model_order(list(r)) for r in a]
+            if any(o is None for o in rows):
+                return None
+            if values:
+                return mkarr([[r[i] for i in o] for r, o in zip(a, rows)])
+            out = np.empty(a.shape, dtype=object)
+            for i, o in enumerate(rows):
+                for j, v in enumerate(o):
+                    out[i, j] = v
+            return out
+        return None
+
+    def np_sort(self, a, **kw):
+        a = self.np_asarray(a)
+        cs = cells(a)
+        if a.ndim == 1 and all(c.is_const() for c in cs):
+            return mkarr(sorted(cs, key=lambda c: c.cval()))
+        if self.I.model is not None:
+            r_ = self._model_argsort(a, kw, values=True)
+            if r_ is not None:
+                return r_
+        return self.I.opaque("sort of symbolic data")
+
+    def np_count_nonzero(self, a, axis=None, **kw):
+        a = self.np_asarray(a)
+
+        def nz(c):
+            if isinstance(c, (bool, np.bool_)):
+                return bool(c)
+            r = self.I.compare1(_OPS["NotEq"], c, ZERO)
+            if not isinstance(r, (bool, np.bool_)):
+                raise Unsupported("count_nonzero of data not known to be zero or non-zero")
+            return bool(r)
+        if axis is None:
+            return sum(1 for c in a.flat if nz(c))
+        axis = int(cell(axis).cval()) if not isinstance(axis, int) else axis
+        flags = np.empty(a.shape, dtype=int)
+        for i in np.ndindex(*a.shape):
+            flags[i] = 1 if nz(a[i]) else 0
+        r = flags.sum(axis=axis)
+        out = np.empty(r.shape, dtype=object)
+        for i in np.ndindex(*r.shape):
+            out[i] = int(r[i])
+        return out
+
+    def np_take_along_axis(self, a, idx, axis=None, **kw):
+        a, idx = self.np_asarray(a), self.np_asarray(idx)
+        if not all(isinstance(i, (int, np.integer)) or (isinstance(i, E) and i.is_int()) for i in idx.flat):
+            raise Unsupported("take_along_axis with data-dependent indices")
+        ii = np.empty(idx.shape, dtype=int)
+        for k in np.ndindex(*idx.shape):
+            ii[k] = int(idx[k]) if not isinstance(idx[k], E) else int(idx[k].cval())
+        return np.take_along_axis(a, ii, axis=None if axis is None else int(axis))
 
     def np_norm(self, a, axis=None, **kw):
         a = self.np_asarray(a)
@@ -1400,11 +1503,48 @@ class NumpyModel:
     def np_histogram(self, *a, **k):
         return self.I.opaque("histogram")
 
-    def np_searchsorted(self, arr, vals, **k):
+    def np_searchsorted(self, arr, vals, *pos, **k):
+        if pos:
+            k = dict(k, side=pos[0])
+        if self.I.model is not None and isinstance(arr, np.ndarray) and arr.ndim == 1 and not isinstance(vals, (SymArr, SymIdx)):
+            r_ = self._model_searchsorted(arr, vals, k)
+            if r_ is not None:
+                return r_
         snap = SymArr(arr.op, arr.args) if isinstance(arr, SymArr) else arr
         if isinstance(arr, SymArr):
             snap.mods = list(arr.mods)
         return SymIdx("searchsorted", (snap, vals, tuple(sorted(k.items()))))
+
+    def _model_searchsorted(self, arr, vals, k):
+        side = k.get("side", "left")
+        if k.get("sorter") is not None or side not in ("left", "right"):
+            return None
+        av = [self.I.model_val(c) for c in arr]
+        if any(v is None for v in av):
+            return None
+        scalar = not isinstance(vals, np.ndarray)
+        vs = [vals] if scalar else list(vals.flat)
+        out = []
+        import bisect
+        for v in vs:
+            x = self.I.model_val(v)
+            if x is None:
+                return None
+            j = bisect.bisect_left(av, x) if side == "left" else bisect.bisect_right(av, x)
+            # what the position says about the searched value: arr[j-1] < v <= arr[j] (side left)
+            self.I.model_decisions.append(("searchsorted", lift(cell(v)), tuple(lift(c) for c in arr), j))
+            if self.I.is_variate(cell(v)):
+                if j > 0:
+                    self.I.model_bound(cell(v), "lo", arr[j - 1])
+                if j < len(av):
+                    self.I.model_bound(cell(v), "hi", arr[j])
+            out.append(j)
+        if scalar:
+            return out[0]
+        r = np.empty(vals.shape, dtype=object)
+        for i, j in zip(np.ndindex(*vals.shape), out):
+            r[i] = j
+        return r
 
     def np_comb(self, n, k, **kw):
         import math
@@ -1426,10 +1566,25 @@ class NumpyModel:
         self.I.emit("rng", ("default_rng", keyof(seed)))
         rng = Record(None, {"seed": seed, "calls": 0}, label="Generator")
 
+        short_seed = repr(seed)[:24]
+
         def draw(name):
             def f(I_, *a, **k2):
                 rng.attrs["calls"] += 1
-                I_.emit("rng-draw", (name, keyof(seed), rng.attrs["calls"], keyof(a)))
+                I_.emit("rng-draw", (name, keyof(seed), rng.attrs["calls"], keyof(a), tuple(sorted((k_, keyof(v_)) for k_, v_ in k2.items()))))
+                if I_.model is not None and name == "random":
+                    # model-point mode: the variates are symbols of their own, positive and below one, with numeric stand-ins by position
+                    size = a[0] if a else k2.get("size")
+                    shape = () if size is None else (tuple(int(cell(x).cval()) if not isinstance(x, int) else x for x in size) if isinstance(size, (tuple, list)) else (int(cell(size).cval()) if not isinstance(size, int) else size,))
+                    call = rng.attrs["calls"]
+                    out = np.empty(shape, dtype=object)
+                    for flat, ix in enumerate(np.ndindex(*shape)):
+                        ue = alg.psym(f"u<{short_seed}>{call}[{flat}]")
+                        (at,) = alg.atoms_of(ue)
+                        I_.model_uatoms[at] = (call, flat)
+                        I_.model[at] = I_.model_u.get((call, flat), 0.4142)
+                        out[ix] = ue
+                    return out if shape else out[()]
                 return SymArr("rng." + name, (keyof(seed), rng.attrs["calls"], a, tuple(sorted((k_, keyof(v_)) for k_, v_ in k2.items()))))
             return Native("rng." + name, f)
         for nm in ("random", "integers", "uniform", "normal", "choice", "permutation", "shuffle"):
@@ -1581,6 +1736,10 @@ class NumpyModel:
 
 _NOPE = object()
 # pure NumPy functions that may be folded on constant arguments when no model exists
+_MATH_AS_NUMPY = {"cos": "cos", "sin": "sin", "tan": "tan", "acos": "arccos", "asin": "arcsin", "atan2": "arctan2", "cosh": "cosh", "sinh": "sinh",
+                  "tanh": "tanh", "sqrt": "sqrt", "exp": "exp", "expm1": "expm1", "log": "log", "fabs": "abs", "floor": "floor", "ceil": "ceil",
+                  "isnan": "isnan", "hypot": "hypot", "pow": "power", "isclose": "isclose", "isfinite": "isfinite", "isinf": "isinf",
+                  "degrees": "rad2deg", "radians": "deg2rad", "trunc": "trunc", "atan": "arctan", "log10": "log10", "copysign": "copysign"}
 _PURE_NUMPY = {"flatnonzero", "nonzero", "fromiter", "cumsum", "cumprod", "diff", "unique", "bincount", "count_nonzero", "argwhere", "roll", "flip", "tile",
                "repeat", "searchsorted", "digitize", "logical_xor", "mod", "remainder", "floor_divide", "isin", "in1d", "setdiff1d", "union1d", "intersect1d",
                "argmax", "argmin", "argsort", "sort", "indices", "take", "delete", "insert", "array_split", "split", "ediff1d", "triu", "tril", "identity",
